@@ -6,6 +6,7 @@ import FerretVerif.Model.Num
 import FerretVerif.Drv.Limbs
 import FerretVerif.Drv.Literal
 import FerretVerif.Drv.Layout
+import FerretVerif.Drv.Toml
 
 open FerretVerif
 
@@ -41,4 +42,9 @@ def main (args : List String) : IO UInt32 := do
   | ["limbs"] => eachLine cmdLimbs; return 0
   | ["literal"] => eachLine cmdLiteral; return 0
   | ["layout"] => eachLine cmdLayout; return 0
+  | ["toml-fmt"] => eachLine cmdTomlFmt; return 0
+  | ["toml-parseval"] => eachLine cmdTomlParseVal; return 0
+  | ["toml-strip"] => eachLine cmdTomlStrip; return 0
+  | ["toml-file"] => eachLine cmdTomlFile; return 0
+  | ["toml-rt"] => eachLine cmdTomlRt; return 0
   | _ => IO.eprintln s!"fvdriver: unknown subcommand {args}"; return 2
